@@ -199,6 +199,12 @@ def rule_block(ctx, R):
 CATALOGUE = sorted(set(sum((rules_cmd.NAMES[p] for p in ("C01", "C02", "C03", "C04", "C15", "C16", "C19")), [])))
 
 
+# reviewed deviations of the engine-method sets (command -> (unused predicate, reason))
+ENGINE_SET_EXCEPTIONS = {
+    "SETNX": (lambda sa, ea: True, "the direct handler tests exists() and then calls set_string/set_value, the script side calls the atomic set_string_nx: same outcome on the single command thread"),
+}
+
+
 def rule_parity(ctx, R):
     arms = rules_cmd.dispatch_arms(ctx)
     ex = executor_table(ctx)
@@ -230,6 +236,37 @@ def rule_parity(ctx, R):
                 if not any(re.search(prim, p_) for p_ in prims):
                     R.finding(PARSE, "effect:%s:script-side-primitive" % name, "the script-side implementation of %s cannot reach the storage primitive its semantics need (%s)" % (name, prim), ctx.prog.bodies[PARSE].loc())
     R.floor("catalogue_commands_compared", n)
+    # sibling agreement at the engine interface: the two implementations of a command reach the
+    # same set of engine methods.  (On the confirmed tree 88 of 92 commands agree; the deviations
+    # are reported.)  A command whose implementation reaches an engine method that is new with
+    # respect to the recorded tree is not compared: a maintainer may add a method for one side.
+    try:
+        import anchors, json as _json
+        recorded = set(_json.load(open(anchors.ANCHORS)))
+    except Exception:
+        recorded = None
+    ne = 0
+    for name in CATALOGUE:
+        s_arm = arms.get(name); e_arm = ex.get(name)
+        if s_arm is None or e_arm is None or not e_arm["handled"]:
+            continue
+        sa = s_arm["reach"] & api; ea = e_arm["reach"] & api
+        if recorded is not None and ((sa | ea) - recorded):
+            R.note("%s: reaches an engine method not in the recorded tree (%s); engine-set parity not compared" % (name, sorted(x.split("::")[-1] for x in (sa | ea) - recorded)))
+            continue
+        if name in ENGINE_SET_EXCEPTIONS and not ENGINE_SET_EXCEPTIONS[name][0](sa, ea):
+            pass
+        ne += 1
+        same = sa == ea
+        R.inst(PARSE, "engine-set:" + name, {"command": name, "same_engine_methods": same})
+        if not same and name in ENGINE_SET_EXCEPTIONS:
+            R.note("%s: reviewed exception -- %s" % (name, ENGINE_SET_EXCEPTIONS[name][1])); continue
+        if not same:
+            only_s = sorted(x[len(ENGINE):] for x in sa - ea); only_e = sorted(x[len(ENGINE):] for x in ea - sa)
+            R.finding(PARSE, "engine-set:%s:differs" % name,
+                      "%s sent directly reaches engine methods %s, redis.call('%s') reaches %s: the two implementations of the command do different things to the dataset (only direct: %s; only script: %s)" % (
+                          name, sorted(x[len(ENGINE):] for x in sa), name, sorted(x[len(ENGINE):] for x in ea), only_s, only_e), ctx.prog.bodies[PARSE].loc())
+    R.floor("engine_sets_compared", ne)
     # commands the executor treats as no-ops although they persist / administrate when sent directly
     for name in ("SAVE", "BGSAVE", "BGREWRITEAOF", "CONFIG"):
         s_arm = arms.get(name); e_arm = ex.get(name)
